@@ -232,7 +232,7 @@ pub fn random_logical(rng: &mut Rng) -> Logical {
         segments.push(b"k".to_vec());
     }
     let trailing_slash = !segments.is_empty() && rng.chance(1, 5);
-    let names: [&[u8]; 9] = [b"a", b"a-", b"a.", b"b", b"Action", b"k 1", b"", b"\xc3\xa9", b"a0"];
+    let names: [&[u8]; 11] = [b"a", b"a-", b"a.", b"b", b"Action", b"k 1", b"", b"\xc3\xa9", b"a0", b"x-amz-signature", b"X-AMZ-SIGNATURE"];
     let mut query: Vec<(Vec<u8>, Vec<u8>)> = Vec::new();
     for _ in 0..rng.below(5) {
         let k = if rng.chance(4, 5) { rng.pick(&names).to_vec() } else { (0..rng.below(4)).map(|_| seg_byte(rng)).collect() };
